@@ -153,6 +153,49 @@ def run_pool(scen: dict, storage, pool_kind: str, rng_seed: int, per_output: boo
             "followed": True, "stuck": "", "script": []}
 
 
+def two_maps_resources(kind: str, storage: str) -> dict:
+    """ONE pipeline mapped twice with DIFFERENT inputs; the mapped function receives callable, map-scoped resources
+    (cpus = length of the whole input) and its results depend on them.  kind: seq | thread | process.  No cache."""
+    from concurrent.futures import ProcessPoolExecutor, ThreadPoolExecutor
+    ms = {"ins": [{"name": "a", "axes": ["i"]}], "outs": [{"name": "y", "axes": ["i"]}]}
+    gms = {"ins": [{"name": "y", "axes": ["i"]}], "outs": [{"name": "w", "axes": ["i"]}]}
+    desc = {"funcs": [{"name": "f", "params": ["a"], "outputs": ["y"], "defaults": [], "bound": [], "has_ms": True, "ms": ms,
+                       "internal": [], "cache": False, "rescpus": "a"},
+                      {"name": "g", "params": ["y"], "outputs": ["w"], "defaults": [], "bound": [], "has_ms": True, "ms": gms,
+                       "internal": [], "cache": False}]}
+    arr = lambda vs: {"f": "#arr", "a": [{"f": v, "a": []} for v in vs]}   # noqa: E731
+    in1, in2 = [["a", arr(["@p", "@q", "@r"])]], [["a", arr(["@p", "@q"])]]
+    pdesc = pmap.tla_desc_to_py(desc)
+    tmp = tempfile.mkdtemp(prefix="pfverif_c03r_")
+    logf = tmp + "_calls.ndjson"
+    build.reset_log(logf if kind == "process" else None)
+    ex = None if kind == "seq" else ThreadPoolExecutor(3) if kind == "thread" else ProcessPoolExecutor(3)
+    evs: list[dict] = []
+    try:
+        with contextlib.redirect_stdout(io.StringIO()):
+            pl = build.make_pipeline(pdesc)
+        for run, inputs in enumerate((in1, in2, in1)):
+            e, res = pmap.do_map(pl, pdesc, pmap.inputs_to_py(inputs, {"a": "list"}), run_folder=f"{tmp}/r{run}", storage=storage,
+                                 parallel=ex is not None, executor=ex, cleanup=True, load=False)
+            if run:
+                for x in e:
+                    if x["e"] in ("begin", "reject"):
+                        x["new_inputs"] = inputs
+            evs += e
+            if isinstance(res, Exception):
+                break
+    finally:
+        if ex is not None:
+            ex.shutdown(wait=True)
+        build.reset_log()
+        shutil.rmtree(tmp, ignore_errors=True)
+        with contextlib.suppress(FileNotFoundError):
+            import os
+            os.unlink(logf)
+    return {"desc": build.desc_to_tla(pdesc), "inputs": in1, "ev": evs, "storage": storage, "entry": kind + "-twomaps",
+            "followed": True, "stuck": "", "script": []}
+
+
 def validate(ctx: Ctx, traces: list[dict], name: str) -> None:
     for t in traces:
         if not t["followed"]:
@@ -231,6 +274,16 @@ def run(ctx: Ctx) -> None:
     for k, sn in enumerate([s for s in ("chain", "gen", "partial") if s in scens]):
         for kind in ("process", "thread"):
             pools.append(run_pool(scens[sn], "dict", kind, ctx.seed * 1000 + 500 + k, per_output=False, folder=False))
+    # one pipeline mapped twice with other inputs (state kept on the pipeline / its functions between runs must not leak)
+    for k, kind in enumerate(("seq", "thread", "process")):
+        pools.append(two_maps_resources(kind, STORAGES[k % 3]))
+    # functions returning None (a stored None is a value, also for whole-array consumers) through pools
+    import copy as _copy
+    for k, sn in enumerate([s for s in ("partial", "reduce", "chain") if s in scens]):
+        nd = _copy.deepcopy(scens[sn])
+        nd["desc"]["funcs"][0]["retnone"] = True
+        pools.append(run_pool(nd, STORAGES[k % 3] if k else "file_array", "thread" if k % 2 == 0 else "process", ctx.seed * 1000 + 700 + k,
+                              per_output=False))
     # partial runs (fixed_indices) followed by a full run with cleanup=False, all through real pools, on every storage: the
     # workers of a later run reopen / extend the partly filled arrays an earlier run left behind (histories of MC_MapFixed)
     from . import c06
